@@ -106,7 +106,9 @@ type VC struct {
 	Abstract map[string]int
 	loops    map[*ssa.BasicBlock]*loopInfo
 	loopList []*loopInfo
-	backEdge map[[2]int]bool
+	backEdge map[[2]*ssa.BasicBlock]bool
+	shapes map[*ssa.Function][]*loopShape
+	staticLoops []*staticLoop // every loop of the function and of the helpers verified inline, in static order
 	callOrd  map[string]int
 	staticOrd map[ordKey]int
 	params   map[string]sval
@@ -145,7 +147,7 @@ func NewVC(p *Program, c *Contracts, fn *ssa.Function, fc *FuncContract) *VC {
 		reach: map[*ssa.BasicBlock]string{}, endState: map[*ssa.BasicBlock]*state{},
 		keyMetas: map[string]keyMeta{}, strLits: map[string]int{"": 0}, strList: []string{""},
 		typeIDs: map[string]int{}, counts: map[string]int{}, Abstract: map[string]int{},
-		loops: map[*ssa.BasicBlock]*loopInfo{}, backEdge: map[[2]int]bool{}, callOrd: map[string]int{},
+		loops: map[*ssa.BasicBlock]*loopInfo{}, backEdge: map[[2]*ssa.BasicBlock]bool{}, callOrd: map[string]int{},
 		params: map[string]sval{}, siteUsed: map[*Clause]int{}, tuples: map[ssa.Value][]string{}, funcIDs: map[string]int{}, usedContracts: map[string]bool{}, ensuresSeen: map[*Clause]int{}, localRefs: map[string][]localRef{}, inlMemo: map[*ssa.Function]bool{}, privateRefs: map[string][]string{}, deferInfo: map[*ssa.Defer]*callInfo{}}
 	return vc
 }
